@@ -90,9 +90,9 @@ func runC03(c *Ctx) {
 					continue
 				}
 				found = true
-				ok2 := pathOf(st.Val) == "snapshots"
+				ok2 := pathOf(st.Val) == snapshotsParam(fn)
 				c.Ob("C03.G1", fn, "compact.IterConfig.Snapshots is the caller's snapshot list", c.P.Pos(in.Pos()), ok2,
-					map[bool]string{true: "", false: "IterConfig.Snapshots is set from " + pathOf(st.Val) + " instead of the snapshots parameter"}[ok2])
+					map[bool]string{true: "", false: "IterConfig.Snapshots is set from " + pathOf(st.Val) + " instead of the snapshot-list parameter"}[ok2])
 			}
 		}
 		c.Ob("C03.G1", fn, "compact.IterConfig.Snapshots is set", c.P.Pos(fn.Pos()), found, map[bool]string{true: "", false: "the compaction iterator is configured without the snapshot list: versions needed by open snapshots would be elided"}[found])
@@ -134,7 +134,7 @@ func runC03(c *Ctx) {
 	}
 	// C03.G2: promotion only for tombstones strictly older than the earliest snapshot
 	if fn := c.Fn("C03.G2", "tombspan.(*Set).UpdateWithEarliestSnapshot"); fn != nil {
-		fl := NewFlow(c.P).Edge("strictly-older", CmpGuard(token.LSS, "HighestSeqNum()", "earliestSnapshot")).IterationLocal("strictly-older")
+		fl := NewFlow(c.P).Edge("strictly-older", CmpGuard(token.LSS, "HighestSeqNum()", ParamName(fn, 1))).IterationLocal("strictly-older")
 		res := fl.Analyze(fn, emptyState())
 		n := c.Require("C03.G2", res, Pred("n++ (promote)", func(in ssa.Instruction) bool {
 			bo, ok := in.(*ssa.BinOp)
@@ -143,7 +143,18 @@ func runC03(c *Ctx) {
 			}
 			k, isK := constInt(bo.Y)
 			phi, isPhi := bo.X.(*ssa.Phi)
-			return isK && k == 1 && isPhi && phi.Comment == "n"
+			if !isK || k != 1 || !isPhi {
+				return false
+			}
+			// the counter that indexes ts.pending
+			if phi.Referrers() != nil {
+				for _, r := range *phi.Referrers() {
+					if ia, ok := r.(*ssa.IndexAddr); ok && ia.Index == ssa.Value(phi) && pathHasSuffix(pathOf(ia.X), "pending") {
+						return true
+					}
+				}
+			}
+			return false
 		}), "a pending wide tombstone is promoted only if its highest seqnum is strictly below the earliest snapshot", []string{"strictly-older"})
 		if n == 0 {
 			c.Unresolved("C03.G2", "promotion counter not found in UpdateWithEarliestSnapshot")
@@ -172,15 +183,25 @@ func runC03(c *Ctx) {
 	if fn := c.Fn("C03.V1", "p.(*Snapshot).Get"); fn != nil {
 		for _, in := range instrs(fn, CallTo("p.(*DB).getInternal")) {
 			args := in.(*ssa.Call).Common().Args
-			ok := pathOf(args[len(args)-1]) == "s"
+			ok := pathOf(args[len(args)-1]) == "recv"
 			c.Ob("C03.V1", fn, "Get passes the snapshot itself", c.P.Pos(in.Pos()), ok, "")
 		}
 	}
 	if fn := c.Fn("C03.V1", "p.(*DB).getInternal"); fn != nil {
-		fl := NewFlow(c.P).Edge("no-snapshot", ZeroGuard("s"))
+		fl := NewFlow(c.P).Edge("no-snapshot", ZeroGuard(ParamName(fn, 3)))
 		res := fl.Analyze(fn, emptyState())
 		c.Require("C03.V1", res, MethodOn("Load", "visibleSeqNum"), "latest seqnum used only when no snapshot was given", []string{"no-snapshot"})
 	}
 }
 
 var c03Held = dbMuHeldAtEntry
+
+// snapshotsParam: the name of the parameter of type compact.Snapshots.
+func snapshotsParam(fn *ssa.Function) string {
+	for _, p := range fn.Params {
+		if strings.HasSuffix(p.Type().String(), "compact.Snapshots") {
+			return p.Name()
+		}
+	}
+	return "‹no Snapshots parameter›"
+}
